@@ -97,6 +97,12 @@ def dump_tree(t):
     leaves = []
     i = 0
     while i < len(objs):
+        if type(objs[i]) is ttype:
+            # a firstbucket / next pointer that names an interior node: keep the dump
+            # deterministic (no live objects in it); the walk reports the damage
+            leaves.append((('X', 'tree node where a leaf is expected'), None))
+            i += 1
+            continue
         lst = objs[i].__getstate__()
         nxt = ref(lst[1]) if len(lst) > 1 else None
         leaves.append((lst[0], nxt))
